@@ -8,7 +8,7 @@ def fermat_small_records(quick):
   shim.install()
   from paranoid_crypto.lib import rsa_util
   recs = []
-  for n in range(3, 3000 if quick else 6000):
+  for n in range(3, 3000):     # (TLC needs ~n/2 scan steps for a prime n: 3000 keeps the trace validation within minutes in both tiers)
     for ms in (1, 2, 5, 100, 100000):
       rec = {'sid': 'fermat-small-%d-%d' % (n, ms), 'ev': 'fermat', 'args': {'n': n, 'max_steps': ms}, 'obs': {}, 'raised': 'none'}
       try:
